@@ -6,3 +6,4 @@ func c16Scenarios(thorough bool) []vScn { return nil }
 func c29Scenarios(thorough bool) []vScn { return nil }
 func c17Scenarios(thorough bool) []vScn { return nil }
 func c21ConcScenarios(thorough bool) []vScn { return nil }
+func shimConformance(c *vCtx) {}
